@@ -38,6 +38,8 @@ def setup():
             print(translate_consts())
             print(lake_build(['jence-model']))
             print(lake_build(['Jence']))
+            mods = sorted({m for v in obligations().values() for m in v.get('modules', [])})
+            print(lake_build(mods))
     except BuildError as e:
         print('SETUP-ERROR', e)
         return 2
